@@ -5,8 +5,10 @@
    code performs on that path:
 
      Node.intErrNum        (node.go:23)     set in Node.UpdateName, cleared in Node.errorf
-     SignalEnum.parErrID   (signal_enum.go:15) set in verifyValueIndex, cleared in
-                                            SignalEnum.errorf
+     SignalEnum.parErrID   (signal_enum.go:15) set in verifyValueIndex (both parent kinds) and in
+                                            SignalEnum.modifySize (called by AddValue and by
+                                            modifyValueIndex after verifyValueIndex accepted),
+                                            cleared in SignalEnum.errorf
      the slices handed out uncopied (Message.Signals, Node.Interfaces, ...): returned, never
                                             written by the getter
      the map contents that the copy-then-sort getters read (NodeInterfaces, SentMessages,
@@ -65,14 +67,28 @@ Record msg_st := mkMsg {
   m_id : Z; m_prio : Z; m_static : option Z;
   m_sender : option (nat * nat); (* node, interface number *)
   m_bytes : Z; m_cycle : Z;
-  m_sigs : list Z }.             (* SignalLayout.signals, handed out uncopied by Signals() *)
+  m_sigs : list Z;               (* SignalLayout.signals (signal handles), handed out uncopied by Signals() *)
+  m_recv : list Z;               (* receivers: encoded (node, interface), map contents *)
+  m_attrs : list Z }.            (* assigned attribute handles (map contents) *)
 
 Record bus_st := mkBus { b_baud : Z; b_builder : list Z; b_attrs : list Z }.
 
-Record state := mkState {
-  nodes : list node_st; enums : list enum_st; msgs : list msg_st; buses : list bus_st }.
+(* a signal as the exporters read it: handles of its type / unit / enum (-1 = none) and its
+   attribute assignments.  Types, units, enums and attributes are SHARED between the signals,
+   messages and buses of a network: every per-bus worker of ExportNetwork reads them. *)
+Record sig_st := mkSig { s_type : Z; s_unit : Z; s_enum : Z; s_attrs : list Z }.
 
-Definition init : state := mkState [] [] [] [].
+Record shared_st := mkShared {
+  sigs  : list sig_st;           (* signal handle = position *)
+  types : list (list Z);         (* SignalType: the fields the exporters read (size, signed, min, max, scale, offset) *)
+  units : list Z;                (* SignalUnit: symbol *)
+  adefs : list (list Z) }.       (* Attribute definitions: type, default, bounds (attribute handle = position) *)
+
+Record state := mkState {
+  nodes : list node_st; enums : list enum_st; msgs : list msg_st; buses : list bus_st;
+  shared : shared_st }.
+
+Definition init : state := mkState [] [] [] [] (mkShared [] [] [] []).
 
 (* entity kinds as they appear in EntityError.Kind (entity.go) *)
 Definition K_BUS : Z := 1.
@@ -90,10 +106,15 @@ Fixpoint upd_nth {A} (n : nat) (f : A -> A) (l : list A) : list A :=
   | x :: r, S k => x :: upd_nth k f r
   end.
 
-Definition set_nodes (s : state) (l : list node_st) := mkState l (enums s) (msgs s) (buses s).
-Definition set_enums (s : state) (l : list enum_st) := mkState (nodes s) l (msgs s) (buses s).
-Definition set_msgs (s : state) (l : list msg_st) := mkState (nodes s) (enums s) l (buses s).
-Definition set_buses (s : state) (l : list bus_st) := mkState (nodes s) (enums s) (msgs s) l.
+Definition set_nodes (s : state) (l : list node_st) := mkState l (enums s) (msgs s) (buses s) (shared s).
+Definition set_enums (s : state) (l : list enum_st) := mkState (nodes s) l (msgs s) (buses s) (shared s).
+Definition set_msgs (s : state) (l : list msg_st) := mkState (nodes s) (enums s) l (buses s) (shared s).
+Definition set_buses (s : state) (l : list bus_st) := mkState (nodes s) (enums s) (msgs s) l (shared s).
+Definition set_shared (s : state) (x : shared_st) := mkState (nodes s) (enums s) (msgs s) (buses s) x.
+Definition add_sig (s : state) (x : sig_st) :=
+  set_shared s (mkShared (sigs (shared s) ++ [x]) (types (shared s)) (units (shared s)) (adefs (shared s))).
+Definition set_msg_fields (x : msg_st) (id : Z) (st : option Z) (snd : option (nat * nat)) :=
+  mkMsg id (m_prio x) st snd (m_bytes x) (m_cycle x) (m_sigs x) (m_recv x) (m_attrs x).
 
 Definition set_hint (nd : node_st) (h : Z) := mkNode (n_name nd) (n_id nd) (n_ifs nd) h (n_attrs nd).
 Definition set_name (nd : node_st) (nm : Z) := mkNode nm (n_id nd) (n_ifs nd) (n_hint nd) (n_attrs nd).
@@ -160,9 +181,20 @@ Inductive mut_op :=
 | MNodeRemoveAttr (n : nat) (a : Z)     (* Node.RemoveAttributeAssignment: miss -> errorf *)
 | MEnumAddRef (e : nat) (sg : Z) (room : option Z) (inmsg : bool)  (* NewEnumSignal (+ AppendSignal to a message / InsertSignal into a multiplexer group) *)
 | MEnumDelRef (e : nat) (sg : Z)
-| MEnumAddValue (e : nat) (v idx : Z)   (* SignalEnum.AddValue *)
+| MEnumAddValue (e : nat) (v idx : Z) (push_fail : option Z)
+    (* SignalEnum.AddValue.  push_fail is an ORACLE: the referencing signal whose modifySize fails
+       although verifyValueIndex accepted the index (two enum signals of one enum in one layout
+       grow together, D36; the layouts themselves are C01's model).  SignalEnum.modifySize then
+       sets the hint (signal_enum.go:115) and the caller's errorf clears it. *)
 | MEnumRemoveValue (e : nat) (v : Z)    (* SignalEnum.RemoveValue: miss -> errorf *)
-| MEnumReindex (e : nat) (v idx : Z).   (* SignalEnumValue.UpdateIndex *)
+| MEnumReindex (e : nat) (v idx : Z) (push_fail : option Z)   (* SignalEnumValue.UpdateIndex *)
+| MNewType (fields : list Z)            (* New*SignalType *)
+| MNewUnit (symbol : Z)                 (* NewSignalUnit *)
+| MNewAttrDef (fields : list Z)         (* New*Attribute *)
+| MNewSig (ty un : Z)                   (* NewStandardSignal (+ SetUnit) *)
+| MSigAssignAttr (sg : nat) (a : Z)
+| MMsgAssignAttr (m : nat) (a : Z)
+| MMsgAddRecv (m n i : nat).            (* Message.AddReceiver *)
 
 Definition attached_to (b : nat) (nd : node_st) : bool :=
   existsb (fun ob => match ob with Some b' => Nat.eqb b b' | None => false end) (n_ifs nd).
@@ -213,6 +245,13 @@ Definition verify_value_index (e : enum_st) (idx : Z) : option enum_st :=
 
 Definition list_max (l : list Z) : Z := fold_right Z.max 0 l.
 
+(* the oracle only ranges over the signals that reference the enum *)
+Definition push_failure (en : enum_st) (push_fail : option Z) : option Z :=
+  match push_fail with
+  | Some sg => match find (fun r => r_sig r =? sg) (e_refs en) with Some _ => Some sg | None => None end
+  | None => None
+  end.
+
 Definition mstep (s : state) (op : mut_op) : state * list Z :=
   match op with
   | MNewNode name id nifs =>
@@ -220,12 +259,12 @@ Definition mstep (s : state) (op : mut_op) : state * list Z :=
   | MNewBus baud builder => (set_buses s (buses s ++ [mkBus baud builder []]), OK)
   | MNewEnum => (set_enums s (enums s ++ [mkEnum [] 0 1 [] None]), OK)
   | MNewMsg id prio bytes cycle sigs =>
-      (set_msgs s (msgs s ++ [mkMsg id prio None None bytes cycle sigs]), OK)
+      (set_msgs s (msgs s ++ [mkMsg id prio None None bytes cycle sigs [] []]), OK)
   | MMsgSetSender m n i =>
-      (set_msgs s (upd_nth m (fun x => mkMsg (m_id x) (m_prio x) (m_static x) (Some (n, i)) (m_bytes x) (m_cycle x) (m_sigs x)) (msgs s)), OK)
+      (set_msgs s (upd_nth m (fun x => set_msg_fields x (m_id x) (m_static x) (Some (n, i))) (msgs s)), OK)
   | MMsgSetStatic m cid =>
       (* message.go SetStaticCANID: m.id = MessageID(staticCANID) as well *)
-      (set_msgs s (upd_nth m (fun x => mkMsg cid (m_prio x) (Some cid) (m_sender x) (m_bytes x) (m_cycle x) (m_sigs x)) (msgs s)), OK)
+      (set_msgs s (upd_nth m (fun x => set_msg_fields x cid (Some cid) (m_sender x)) (msgs s)), OK)
   | MBusAssignAttr b a =>
       (set_buses s (upd_nth b (fun x => mkBus (b_baud x) (b_builder x) (b_attrs x ++ [a])) (buses s)), OK)
   | MNodeAttach n i b =>
@@ -268,10 +307,12 @@ Definition mstep (s : state) (op : mut_op) : state * list Z :=
                (set_nodes s (upd_nth n (fun _ => fst r) (nodes s)), ERR (snd r))
       end
   | MEnumAddRef e sg room inmsg =>
-      (set_enums s (upd_nth e (fun x => set_erefs x (e_refs x ++ [mkRef sg room inmsg])) (enums s)), OK)
+      (* the new enum signal also enters the signal table (the harness numbers signals by position) *)
+      (add_sig (set_enums s (upd_nth e (fun x => set_erefs x (e_refs x ++ [mkRef sg room inmsg])) (enums s)))
+               (mkSig (-1) (-1) (Z.of_nat e) []), OK)
   | MEnumDelRef e sg =>
       (set_enums s (upd_nth e (fun x => set_erefs x (filter (fun r => negb (r_sig r =? sg)) (e_refs x))) (enums s)), OK)
-  | MEnumAddValue e v idx =>
+  | MEnumAddValue e v idx push_fail =>
       match nth_error (enums s) e with
       | None => (s, ERR [])
       | Some en =>
@@ -284,8 +325,15 @@ Definition mstep (s : state) (op : mut_op) : state * list Z :=
                 let r := enum_errorf en in
                 (set_enums s (upd_nth e (fun _ => fst r) (enums s)), ERR (snd r))
               else
-                let en' := set_evals en (e_vals en ++ [(v, idx)]) (Z.max (e_max en) idx) in
-                (set_enums s (upd_nth e (fun _ => en') (enums s)), OK)
+                match (if e_max en <? idx then push_failure en push_fail else None) with
+                | Some sg =>
+                    (* se.modifySize: se.parErrID = tmpSig.entityID; return err -> se.errorf(addValErr) *)
+                    let r := enum_errorf (set_ehint en (Some sg)) in
+                    (set_enums s (upd_nth e (fun _ => fst r) (enums s)), ERR (snd r))
+                | None =>
+                    let en' := set_evals en (e_vals en ++ [(v, idx)]) (Z.max (e_max en) idx) in
+                    (set_enums s (upd_nth e (fun _ => en') (enums s)), OK)
+                end
           end
       end
   | MEnumRemoveValue e v =>
@@ -299,7 +347,7 @@ Definition mstep (s : state) (op : mut_op) : state * list Z :=
             let r := enum_errorf en in
             (set_enums s (upd_nth e (fun _ => fst r) (enums s)), ERR (snd r))
       end
-  | MEnumReindex e v idx =>
+  | MEnumReindex e v idx push_fail =>
       match nth_error (enums s) e with
       | None => (s, ERR [])
       | Some en =>
@@ -313,11 +361,48 @@ Definition mstep (s : state) (op : mut_op) : state * list Z :=
                        let r := enum_errorf en1 in
                        (set_enums s (upd_nth e (fun _ => fst r) (enums s)), ERR (snd r))
                    | None =>
-                       (* success branch: abstraction of modifyValueIndex (D02 is C01's); not
-                          exercised by the correspondence run, irrelevant for the hints *)
-                       let vals := map (fun p => if fst p =? v then (v, idx) else p) (e_vals en) in
-                       (set_enums s (upd_nth e (fun x => set_evals x vals (list_max (map snd vals))) (enums s)), OK)
+                       match push_failure en push_fail with
+                       | Some sg =>
+                           (* modifyValueIndex: se.modifySize fails (hint set, signal_enum.go:115);
+                              panic(se.errorf(err)): the errorf consumes the hint before the panic *)
+                           let r := enum_errorf (set_ehint en (Some sg)) in
+                           (set_enums s (upd_nth e (fun _ => fst r) (enums s)), K_PANIC :: snd r)
+                       | None =>
+                           (* success branch: abstraction of modifyValueIndex (the layouts are C01's
+                              model); the correspondence run only issues refused / no-op calls *)
+                           let vals := map (fun p => if fst p =? v then (v, idx) else p) (e_vals en) in
+                           (set_enums s (upd_nth e (fun x => set_evals x vals (list_max (map snd vals))) (enums s)), OK)
+                       end
                    end
+          end
+      end
+  | MNewType fields =>
+      (set_shared s (mkShared (sigs (shared s)) (types (shared s) ++ [fields]) (units (shared s)) (adefs (shared s))), OK)
+  | MNewUnit sym =>
+      (set_shared s (mkShared (sigs (shared s)) (types (shared s)) (units (shared s) ++ [sym]) (adefs (shared s))), OK)
+  | MNewAttrDef fields =>
+      (set_shared s (mkShared (sigs (shared s)) (types (shared s)) (units (shared s)) (adefs (shared s) ++ [fields])), OK)
+  | MNewSig ty un => (add_sig s (mkSig ty un (-1) []), OK)
+  | MSigAssignAttr sg a =>
+      (set_shared s (mkShared (upd_nth sg (fun x => mkSig (s_type x) (s_unit x) (s_enum x)
+                                                     (if zmem a (s_attrs x) then s_attrs x else s_attrs x ++ [a]))
+                                       (sigs (shared s)))
+                              (types (shared s)) (units (shared s)) (adefs (shared s))), OK)
+  | MMsgAssignAttr m a =>
+      (set_msgs s (upd_nth m (fun x => mkMsg (m_id x) (m_prio x) (m_static x) (m_sender x) (m_bytes x) (m_cycle x) (m_sigs x) (m_recv x)
+                                             (if zmem a (m_attrs x) then m_attrs x else m_attrs x ++ [a])) (msgs s)), OK)
+  | MMsgAddRecv m n i =>
+      match nth_error (msgs s) m with
+      | None => (s, ERR [])
+      | Some x =>
+          match m_sender x with
+          | Some (n', i') =>
+              if Nat.eqb n n' && Nat.eqb i i' then (s, ERR [K_MSG])   (* ErrReceiverIsSender *)
+              else (set_msgs s (upd_nth m (fun x => mkMsg (m_id x) (m_prio x) (m_static x) (m_sender x) (m_bytes x) (m_cycle x) (m_sigs x)
+                                                          (m_recv x ++ [Z.of_nat n * 1024 + Z.of_nat i]) (m_attrs x)) (msgs s)), OK)
+          | None =>
+              (set_msgs s (upd_nth m (fun x => mkMsg (m_id x) (m_prio x) (m_static x) (m_sender x) (m_bytes x) (m_cycle x) (m_sigs x)
+                                                     (m_recv x ++ [Z.of_nat n * 1024 + Z.of_nat i]) (m_attrs x)) (msgs s)), OK)
           end
       end
   end.
@@ -338,7 +423,15 @@ Inductive ro_op :=
 | RSentMsgs (n i : nat)              (* NodeInterface.SentMessages(): copy, sorted by message id *)
 | RMsgSignals (m : nat)              (* Message.Signals(): the layout's slice itself / Decode's walk *)
 | RMsgCanID (m : nat)                (* GetCANID: static id, or sender, bus builder ops, prio, id, node id *)
-| RBusLoad (b : nat).                (* CalculateBusLoad: baudrate, size and cycle time of every sent message *)
+| RBusLoad (b : nat)                 (* CalculateBusLoad: baudrate, size and cycle time of every sent message *)
+| RBusAttrs (b : nat)                (* Bus.AttributeAssignments(): copy, sorted *)
+| RMsgRecv (m : nat)                 (* Message.Receivers(): copy, sorted by node name *)
+| RMsgAttrs (m : nat)                (* Message.AttributeAssignments(): copy, sorted *)
+| RSigFields (sg : nat)              (* Signal: Kind, Type(), Unit(), Enum() (shared objects) *)
+| RSigAttrs (sg : nat)               (* Signal.AttributeAssignments(): copy, sorted *)
+| RTypeFields (t : nat)              (* SignalType fields read by the exporters (shared) *)
+| RUnitFields (u : nat)              (* SignalUnit symbol (shared) *)
+| RAttrDef (a : nat).                (* Attribute definition: type, default, bounds (shared) *)
 
 Definition enc (n i : nat) : Z := Z.of_nat n * 1024 + Z.of_nat i.
 Definition dec_n (z : Z) : nat := Z.to_nat (z / 1024).
@@ -395,6 +488,14 @@ Definition msg_canid_inputs (s : state) (x : msg_st) : list Z :=
               end
           end
       end
+  end.
+
+(* Message.Receivers() sorts by node name (ties by entity id: the harness and this key use the
+   encoded (node, interface) instead, entity ids are not modelled) *)
+Definition recv_key (s : state) (z : Z) : Z :=
+  match nth_error (nodes s) (dec_n z) with
+  | Some nd => n_name nd * 1048576 + z
+  | None => z
   end.
 
 Definition ro (s : state) (q : ro_op) : state * list Z :=
@@ -458,6 +559,24 @@ Definition ro (s : state) (q : ro_op) : state * list Z :=
                                            (map snd (sort_by fst (sent_msgs s (dec_n ni) (dec_i ni)))))
                        (map snd (sort_by fst (bus_ifaces s b)))
           | None => ERR [] end)
+  | RBusAttrs b =>
+      (s, match nth_error (buses s) b with Some bs => sort_by (fun a => a) (b_attrs bs) | None => ERR [] end)
+  | RMsgRecv m =>
+      (s, match nth_error (msgs s) m with
+          | Some x => map snd (sort_by fst (map (fun z => (recv_key s z, z)) (m_recv x)))
+          | None => ERR [] end)
+  | RMsgAttrs m =>
+      (s, match nth_error (msgs s) m with Some x => sort_by (fun a => a) (m_attrs x) | None => ERR [] end)
+  | RSigFields sg =>
+      (s, match nth_error (sigs (shared s)) sg with Some x => [s_type x; s_unit x; s_enum x] | None => ERR [] end)
+  | RSigAttrs sg =>
+      (s, match nth_error (sigs (shared s)) sg with Some x => sort_by (fun a => a) (s_attrs x) | None => ERR [] end)
+  | RTypeFields t =>
+      (s, match nth_error (types (shared s)) t with Some f => f | None => ERR [] end)
+  | RUnitFields u =>
+      (s, match nth_error (units (shared s)) u with Some sym => [sym] | None => ERR [] end)
+  | RAttrDef a =>
+      (s, match nth_error (adefs (shared s)) a with Some f => f | None => ERR [] end)
   end.
 
 (* ---------------------------------------------------------------- histories *)
@@ -533,23 +652,53 @@ Fixpoint foreach (l : list Z) (body : Z -> list (list Z) -> (list (list Z) -> pr
   | x :: r => body x acc (fun acc' => foreach r body acc' k)
   end.
 
-(* exporter.exportBus: bus attributes, NodeInterfaces(), per interface the node, its attribute
-   assignments and SentMessages(), per message GetCANID and Signals().  `acc` is the worker's
-   private dbc.File under construction. *)
+(* exporter.exportBus, with every read of SHARED state it performs (exporter.go):
+     bus:        desc/baudrate, AttributeAssignments() and, per assignment, the attribute definition
+     interfaces: NodeInterfaces(); per interface the node (name, desc, id), its
+                 AttributeAssignments() + attribute definitions, SentMessages()
+     message:    GetCANID (static id / sender / bus builder / priority / id / node id),
+                 AttributeAssignments() + definitions, Signals()
+     signal:     AttributeAssignments() + definitions, parMsg.Receivers() (once per signal, as the
+                 code does), kind / type / unit / enum of the signal, then the type's fields, the
+                 unit's symbol, the enum's Values() - objects shared between messages and buses
+   `acc` is the worker's private dbc.File under construction.  (The value tables written at the end
+   of exportBus re-read Values() of the enums met on the way: same read set.) *)
+Definition attr_body (a : Z) (acc : list (list Z)) (k : list (list Z) -> prog) : prog :=
+  Call (RAttrDef (Z.to_nat a)) (fun d => k (acc ++ [d])).
+
+Definition opt_call (h : Z) (mk : nat -> ro_op) (acc : list (list Z)) (k : list (list Z) -> prog) : prog :=
+  if 0 <=? h then Call (mk (Z.to_nat h)) (fun o => k (acc ++ [o])) else k acc.
+
+Definition sig_body (m : nat) (sz : Z) (acc : list (list Z)) (k : list (list Z) -> prog) : prog :=
+  Call (RSigAttrs (Z.to_nat sz)) (fun sa =>
+  foreach sa attr_body (acc ++ [sa]) (fun acc1 =>
+  Call (RMsgRecv m) (fun rc =>
+  Call (RSigFields (Z.to_nat sz)) (fun f =>
+  opt_call (nth 0 f (-1)) RTypeFields (acc1 ++ [rc; f]) (fun acc2 =>
+  opt_call (nth 1 f (-1)) RUnitFields acc2 (fun acc3 =>
+  opt_call (nth 2 f (-1)) REnumValues acc3 k)))))).
+
+Definition msg_body (mz : Z) (acc : list (list Z)) (k : list (list Z) -> prog) : prog :=
+  let m := Z.to_nat mz in
+  Call (RMsgCanID m) (fun o3 =>
+  Call (RMsgAttrs m) (fun ma =>
+  foreach ma attr_body (acc ++ [o3; ma]) (fun acc1 =>
+  Call (RMsgSignals m) (fun ss =>
+  foreach ss (sig_body m) (acc1 ++ [ss]) k)))).
+
 Definition export_bus_prog (b : nat) : prog :=
   Call (RBusFields b) (fun o0 =>
+  Call (RBusAttrs b) (fun ba =>
+  foreach ba attr_body [o0; ba] (fun acc0 =>
   Call (RBusNodes b) (fun nis =>
   foreach nis
     (fun ni acc k =>
        Call (RNodeFields (dec_n ni)) (fun o1 =>
        Call (RNodeAttrs (dec_n ni)) (fun o2 =>
+       foreach o2 attr_body (acc ++ [o1; o2]) (fun acc1 =>
        Call (RSentMsgs (dec_n ni) (dec_i ni)) (fun ms =>
-       foreach ms
-         (fun mz acc' k' =>
-            Call (RMsgCanID (Z.to_nat mz)) (fun o3 =>
-            Call (RMsgSignals (Z.to_nat mz)) (fun o4 => k' (acc' ++ [o3; o4]))))
-         (acc ++ [o1; o2]) k))))
-    [o0] (fun acc => Done acc))).
+       foreach ms msg_body acc1 k)))))
+    acc0 (fun acc => Done acc))))).
 
 Definition export_bus (s : state) (b : nat) : list (list Z) := eval s (export_bus_prog b).
 
